@@ -49,9 +49,38 @@ def gen_sweep_spec(seed: int, q: int, idx: int):
     return spec, [inp, other], prng
 
 
+LINE_SWEEP = 56  # asynchronous-exception points of one run (returns from C calls and function entries in plan.py, `after` events)
+
+
+def gen_line_sweep_spec(seed: int, q: int, idx: int):
+    """SIGINT where the interpreter really acts on it: process 0 is interrupted at its k-th asynchronous-exception
+    point (a call into C made by plan.py has returned, a function of plan.py is entered, a creating / removing
+    system call has returned), for every k; inputs include failing ones, half of the bases have a concurrent peer."""
+    b, k = divmod(q, LINE_SWEEP)
+    rng = rng_for(PROP, seed, f"line-base-{b}")
+    if b % 3 == 2:
+        inp = cliworld.make_input(rng, "p0", p_bad=0.7)  # failure paths: fewer points, other handlers
+    else:
+        inp = gen.gen_project(rng, reports="always")
+        inp.update(name="p0", kind="ok")
+    spec = {"files": {}, "decoys": {}, "procs": [], "prop": PROP, "idx": idx, "line_sweep": q}
+    cliworld.place_inputs(rng, [inp], spec)
+    cliworld.add_decoys(rng, spec, 0.5, ["p0"])
+    spec["procs"].append(cliworld.make_proc(rng, inp, 0))
+    if b % 2:
+        spec["procs"].append(cliworld.make_proc(rng, inp, 1))
+    prng = rng_for(PROP, seed, f"line-{q}")
+    spec.update(policy=prng.choice(["seq", "random", "sticky"]), listing="perm", collide=False, name_salt=b % 4, clock_jumps=False, t0=procworld.T0, points=True)
+    spec["faults"] = {"kinds": ["sigint"], "p_proc": 1.0, "p_second": 0.0, "horizon": 400}
+    spec["pin"] = {"proc": 0, "point": k}
+    return spec, [inp], prng
+
+
 def gen_spec(seed: int, idx: int, tier: str) -> tuple[dict, list[dict], random.Random]:
     if idx % 4 == 3:
         return gen_sweep_spec(seed, idx // 4, idx)
+    if idx % 8 == 1:
+        return gen_line_sweep_spec(seed, idx // 8, idx)
     rng = rng_for(PROP, seed, idx)
     big = tier == "thorough"
     r = rng.random()
@@ -93,6 +122,11 @@ def gen_spec(seed: int, idx: int, tier: str) -> tuple[dict, list[dict], random.R
     if prng.random() < 0.12:
         np_ = len(spec["procs"])
         spec["persist"] = {"cls": prng.choice(sorted(procworld.PERSIST)), "proc": None if prng.random() < 0.4 else prng.randrange(np_), "from": prng.choice([0, 0, 3, 8]) if prng.random() < 0.3 else prng.randrange(0, 70)}
+    elif prng.random() < 0.08:
+        # statement-granular pre-emption (and SIGINT between statements, if enabled) in random scenarios too
+        spec["points"] = True
+        spec["faults"]["horizon"] *= 4
+        spec["faults"]["p_second"] = 0.0
     return spec, inputs, rng
 
 
@@ -145,6 +179,10 @@ def oracles(spec: dict, inputs: list[dict], r: dict, base: list) -> list[dict]:
             # was made to fail or was interrupted - and nothing else
             if op in ("unlink", "rmdir", "opendir", "stat") or (op == "scandir" and prev_op.get(pi) == ("opendir", path)):
                 excused_tops.add(_top_entry(path))
+            if op == "after" and act == "sigint" and prev_op.get(pi, ("", ""))[0] in ("unlink", "rmdir"):
+                excused_tops.add(_top_entry(path))  # same thing, the signal acted upon right after the removing call returned
+            if op == "after" and act == "sigint" and path.split("/")[-1].startswith(PROBE_PREFIX):
+                excused_paths.add(path)  # tempfile's own writability probe, interrupted between its create and its unlink
         prev_op[pi] = (op, path)
     for p in procs:
         if p["killed"]:
@@ -207,6 +245,12 @@ def oracles(spec: dict, inputs: list[dict], r: dict, base: list) -> list[dict]:
             if who is not None:
                 pr = procs[who]
                 why = "sigint" if pr["sigint"] else ("faulted" if pr["faults"] else f"exit{pr['exit']}")
+                sig_faults = [f for f in pr["faults"] if f["kind"] == "sigint"]
+                if pr["sigint"] and sig_faults and sig_faults[-1]["op"] == "point":
+                    # interrupted between two instructions of plan.py: the site is part of the signature
+                    why = "sigint-at-point|" + sig_faults[-1]["path"].strip("<>").split(":")[1] + "|after-" + sig_faults[-1].get("at", "")
+                elif pr["sigint"] and sig_faults and sig_faults[-1]["op"] == "after":
+                    why = "sigint-at-point|after-" + sig_faults[-1].get("at", "") + "|" + procworld._pclass(sig_faults[-1]["path"]).split("/")[-1]
                 inp = by_name.get(spec["procs"][who]["input"], {})
                 if not pr["faults"]:
                     why += "|" + inp.get("kind", "?")
@@ -283,6 +327,7 @@ def _summary(spec, inputs, r, V, herr):
         "switches": st["switches"],
         "overlap_switches": st["overlap_switches"],
         "perms": st["perms"],
+        "point_events": st.get("point_events", 0),
         "clock_span": st["clock_max"] - st["clock_min"],
         "kinds_enabled": spec["faults"]["kinds"],
         "policy": spec["policy"],
@@ -368,7 +413,7 @@ def shrink_candidates(spec: dict, inputs: list[dict]):
         s2 = copy.deepcopy(spec)
         s2["decoys"] = {k: v for k, v in spec["decoys"].items() if k.startswith("in/")}
         yield s2, inputs
-    for key, val in (("collide", False), ("clock_jumps", False), ("listing", "sorted"), ("policy", "seq")):
+    for key, val in (("collide", False), ("clock_jumps", False), ("listing", "sorted"), ("policy", "seq"), ("points", False)):
         if spec.get(key) != val:
             s2 = copy.deepcopy(spec)
             s2[key] = val
@@ -401,7 +446,7 @@ RULE = (
 ASSUMPTIONS = [
     "processes interact only through the file system, so interleaving at file-system-operation granularity is the complete interaction surface",
     "a simulated process is a fork of an idle interpreter that has scriptplan imported, not an exec (calibrated against real subprocesses in selftest)",
-    "signals are delivered at seam events, not between two arbitrary bytecodes of plan.py",
+    "signals are delivered at seam events: before a file-system call, and - in scenarios with the `points` knob - where CPython acts on a pending signal inside plan.py (after a call into C returns, on function entry) and right after a creating / removing system call returns; not inside the engine or the standard library's pure-Python code",
     "SIGKILL of the process under test carries no cleanup obligation; killed peers are a disturbance for the others only",
     "sampling, not enumeration: a clean batch is evidence, not proof",
 ]
